@@ -515,6 +515,61 @@ func TestFixedScenarios(t *testing.T) {
 			cases = append(cases, mk(s2))
 		}
 	}
+	// something that ends the statement - a failing callee, an exiting callee, a failing expression, exit() - in every
+	// header position: the three clauses of a for, an if and an elif condition, a for-in iterable, an element, an argument
+	{
+		whats := map[string]func() *gen.Node{
+			"use-failing":  func() *gen.Node { return gen.NCall("use", gen.NStr("bad.p")) },
+			"use-exiting":  func() *gen.Node { return gen.NCall("use", gen.NStr("quit.p")) },
+			"use-fine":     func() *gen.Node { return gen.NCall("use", gen.NStr("fine.p")) },
+			"division":     func() *gen.Node { return gen.NBin("/", gen.NInt(1), id("z")) },
+			"exit":         func() *gen.Node { return gen.NCall("exit") },
+			"perr":         func() *gen.Node { return gen.NCall("perr") },
+			"use-deep-bad": func() *gen.Node { return gen.NCall("use", gen.NStr("mid.p")) },
+		}
+		inc := func() *gen.Node { return gen.NSet("i", gen.NBin("+", id("i"), gen.NInt(1))) }
+		places := map[string]func(w *gen.Node) *gen.Node{
+			"for-init":        func(w *gen.Node) *gen.Node { return gen.NFor(w, gen.NBool(false), nil, []*gen.Node{gen.NCall("probe", gen.NStr("body"))}) },
+			"for-init-assign": func(w *gen.Node) *gen.Node { return gen.NFor(gen.NSet("y", w), gen.NBool(false), nil, []*gen.Node{gen.NCall("probe", gen.NStr("body"))}) },
+			"for-cond":        func(w *gen.Node) *gen.Node { return gen.NFor(nil, gen.NBin("==", w, gen.NInt(5)), nil, []*gen.Node{gen.NCall("probe", gen.NStr("body")), gen.NBreak()}) },
+			"for-post":        func(w *gen.Node) *gen.Node { return gen.NFor(gen.NSet("i", gen.NInt(0)), gen.NBin("<", id("i"), gen.NInt(2)), w, []*gen.Node{gen.NCall("probe", gen.NStr("body"), id("i")), inc()}) },
+			"if-cond":         func(w *gen.Node) *gen.Node { return gen.NIf([]*gen.Node{gen.NBin("==", w, gen.NInt(5))}, [][]*gen.Node{{gen.NCall("probe", gen.NStr("then"))}}, []*gen.Node{gen.NCall("probe", gen.NStr("else"))}, true) },
+			"elif-cond":       func(w *gen.Node) *gen.Node { return gen.NIf([]*gen.Node{gen.NBool(false), gen.NBin("==", w, gen.NInt(5))}, [][]*gen.Node{{}, {gen.NCall("probe", gen.NStr("then"))}}, []*gen.Node{gen.NCall("probe", gen.NStr("else"))}, true) },
+			"for-in-iterable": func(w *gen.Node) *gen.Node { return gen.NForIn("e", gen.NList(gen.NInt(1), w), []*gen.Node{gen.NCall("probe", gen.NStr("pass"))}) },
+			"argument":        func(w *gen.Node) *gen.Node { return gen.NCall("probe", gen.NStr("arg"), gen.NList(w)) },
+			"nested-loop-init": func(w *gen.Node) *gen.Node { return gen.NForIn("o", gen.NList(gen.NInt(1), gen.NInt(2)), []*gen.Node{gen.NFor(w, gen.NBool(false), nil, nil), gen.NCall("probe", gen.NStr("outer"), id("o"))}) },
+		}
+		var wn, pn []string
+		for k := range whats {
+			wn = append(wn, k)
+		}
+		for k := range places {
+			pn = append(pn, k)
+		}
+		sort.Strings(wn)
+		sort.Strings(pn)
+		for _, w := range wn {
+			for _, p := range pn {
+				for _, depth := range []int{0, 1} {
+					stmt := places[p](whats[w]())
+					body := []*gen.Node{gen.NSet("z", gen.NInt(0)), gen.NSet("v", gen.NInt(1)), gen.NCall("probe", gen.NStr("before")), stmt, probeAll("after")}
+					scripts := map[string][]*gen.Node{
+						"bad.p":  {gen.NCall("probe", gen.NStr("bad-start")), gen.NIf([]*gen.Node{gen.NBool(true)}, [][]*gen.Node{{gen.NSet("q", gen.NBin("+", gen.NInt(1), gen.NStr("s")))}}, nil, false), gen.NCall("probe", gen.NStr("never"))},
+						"quit.p": {gen.NCall("probe", gen.NStr("quit-start")), gen.NCall("exit"), gen.NCall("probe", gen.NStr("never"))},
+						"fine.p": {gen.NCall("add_key", id("k1"), gen.NInt(2))},
+						"mid.p":  {gen.NSet("v", gen.NInt(7)), gen.NCall("use", gen.NStr("bad.p")), gen.NCall("probe", gen.NStr("never-mid"))},
+					}
+					if depth == 0 {
+						scripts["main.p"] = body
+					} else {
+						scripts["main.p"] = []*gen.Node{gen.NSet("v", gen.NInt(5)), gen.NCall("use", gen.NStr("inner.p")), probeAll("main-after")}
+						scripts["inner.p"] = body
+					}
+					cases = append(cases, mk(scripts))
+				}
+			}
+		}
+	}
 	for i, c := range cases {
 		judge(t, "fixed", c, fmt.Sprint("fixed/", i), true, "fixed")
 	}
